@@ -197,6 +197,150 @@ static void values_and_types(void) {
   out_value("value Int", $I(-12)); out_value("value Float", $F(2.5)); out_value("value String", $S("sh\"ow")); out_value("value Type", IOError);
 }
 
+
+/* ---------- user-defined types: every cached class on one type, sparse class subsets on others.
+** The method cache keys a per-type slot on the class; two classes in one slot, a stale slot or a slot filled by a
+** failed lookup make the cached builds answer differently from the uncached ones.  Nothing here depends on addresses. */
+
+struct Omni { int64_t v; double f; char s[24]; long calls[16]; };
+static void Omni_New(var self, var args) { struct Omni* o = self; o->v = c_int(get(args, $I(0))); o->f = (double)o->v / 4.0; snprintf(o->s, sizeof o->s, "omni%" PRId64, o->v); }
+static void Omni_Del(var self) { (void)self; }
+static void Omni_Assign(var self, var obj) { struct Omni* o = self; long c = o->calls[0]; memmove(self, obj, sizeof(struct Omni)); o->calls[0] = c + 1; }
+static int Omni_Cmp(var a, var b) { int64_t x = ((struct Omni*)a)->v, y = ((struct Omni*)b)->v; return x < y ? -1 : x > y; }
+static uint64_t Omni_Hash(var a) { return (uint64_t)((struct Omni*)a)->v * 0x9E3779B97F4A7C15ull; }
+static size_t Omni_Len(var a) { return (size_t)(((struct Omni*)a)->v & 1023); }
+static var Omni_Iter_Init(var a) { ((struct Omni*)a)->calls[12]++; return Terminal; }
+static var Omni_Iter_Next(var a, var c) { (void)a; (void)c; return Terminal; }
+static var Omni_Iter_Type(var a) { (void)a; return Int; }
+static void Omni_Push(var a, var x) { (void)x; ((struct Omni*)a)->calls[1]++; }
+static void Omni_Pop(var a) { ((struct Omni*)a)->calls[2]++; }
+static void Omni_Push_At(var a, var x, var i) { (void)x; (void)i; ((struct Omni*)a)->calls[3]++; }
+static void Omni_Pop_At(var a, var i) { (void)i; ((struct Omni*)a)->calls[4]++; }
+static void Omni_Concat(var a, var x) { (void)x; ((struct Omni*)a)->calls[5]++; }
+static void Omni_Append(var a, var x) { (void)x; ((struct Omni*)a)->calls[6]++; }
+static var Omni_Get(var a, var k) { (void)a; return k; }
+static void Omni_Set(var a, var k, var v) { (void)k; (void)v; ((struct Omni*)a)->calls[7]++; }
+static bool Omni_Mem(var a, var k) { (void)a; return (c_int(k) & 1) != 0; }
+static void Omni_Rem(var a, var k) { (void)k; ((struct Omni*)a)->calls[8]++; }
+static var Omni_Key_Type(var a) { (void)a; return Int; }
+static var Omni_Val_Type(var a) { (void)a; return Float; }
+static char* Omni_C_Str(var a) { return ((struct Omni*)a)->s; }
+static int64_t Omni_C_Int(var a) { return ((struct Omni*)a)->v; }
+static double Omni_C_Float(var a) { return ((struct Omni*)a)->f; }
+static void Omni_Ref(var a, var x) { (void)x; ((struct Omni*)a)->calls[9]++; }
+static var Omni_Deref(var a) { return a; }
+static int Omni_Show(var a, var out, int pos) { return print_to(out, pos, "<Omni %i>", $I(((struct Omni*)a)->v)); }
+static var Omni_Call(var a, var args) { (void)args; ((struct Omni*)a)->calls[13]++; return a; }
+static void Omni_Resize(var a, size_t n) { ((struct Omni*)a)->calls[10] += (long)n; }
+static void Omni_Sort_By(var a, bool(*f)(var,var)) { (void)f; ((struct Omni*)a)->calls[11]++; }
+
+struct Sp { int64_t v; };
+struct SpA { int64_t v; }; struct SpB { int64_t v; }; struct SpC { int64_t v; }; struct SpD { int64_t v; };
+struct SpE { int64_t v; }; struct SpF { int64_t v; }; struct SpG { int64_t v; }; struct SpH { int64_t v; };
+static int64_t Sp_C_Int(var a) { return ((struct Sp*)a)->v * 2 + 1; }
+static double Sp_C_Float(var a) { return (double)((struct Sp*)a)->v + 0.5; }
+static size_t Sp_Len(var a) { return (size_t)(((struct Sp*)a)->v & 255); }
+static uint64_t Sp_Hash(var a) { return (uint64_t)((struct Sp*)a)->v ^ 0x5555; }
+static int Sp_Cmp(var a, var b) { int64_t x = ((struct Sp*)a)->v, y = ((struct Sp*)b)->v; return x < y ? -1 : x > y; }
+static char* Sp_C_Str(var a) { (void)a; return "sparse"; }
+static var Sp_Deref(var a) { return a; }
+static void Sp_Ref(var a, var x) { (void)a; (void)x; }
+
+static var Omni = Cello(Omni,
+    Instance(New, Omni_New, Omni_Del), Instance(Assign, Omni_Assign), Instance(Cmp, Omni_Cmp), Instance(Hash, Omni_Hash),
+    Instance(Len, Omni_Len), Instance(Iter, Omni_Iter_Init, Omni_Iter_Next, Omni_Iter_Init, Omni_Iter_Next, Omni_Iter_Type),
+    Instance(Push, Omni_Push, Omni_Pop, Omni_Push_At, Omni_Pop_At), Instance(Concat, Omni_Concat, Omni_Append),
+    Instance(Get, Omni_Get, Omni_Set, Omni_Mem, Omni_Rem, Omni_Key_Type, Omni_Val_Type),
+    Instance(C_Str, Omni_C_Str), Instance(C_Int, Omni_C_Int), Instance(C_Float, Omni_C_Float),
+    Instance(Pointer, Omni_Ref, Omni_Deref), Instance(Show, Omni_Show, NULL), Instance(Call, Omni_Call),
+  Instance(Resize, Omni_Resize), Instance(Sort, Omni_Sort_By));
+static var SpA = Cello(SpA, Instance(C_Int, Sp_C_Int));
+static var SpB = Cello(SpB, Instance(C_Float, Sp_C_Float));
+static var SpC = Cello(SpC, Instance(C_Int, Sp_C_Int), Instance(C_Float, Sp_C_Float));
+static var SpD = Cello(SpD, Instance(C_Float, Sp_C_Float), Instance(C_Int, Sp_C_Int));
+static var SpE = Cello(SpE, Instance(Len, Sp_Len), Instance(Hash, Sp_Hash));
+static var SpF = Cello(SpF, Instance(Cmp, Sp_Cmp), Instance(C_Str, Sp_C_Str));
+static var SpG = Cello(SpG, Instance(Pointer, Sp_Ref, Sp_Deref), Instance(Len, Sp_Len));
+static var SpH = Cello(SpH, Instance(Hash, Sp_Hash), Instance(C_Int, Sp_C_Int), Instance(C_Str, Sp_C_Str));
+
+static var mk_sp(var T, int64_t v) { struct Sp* p = new_with(T, tuple()); p->v = v; return p; }
+
+static void user_types(void) {
+  var CL[] = { Size, Alloc, New, Assign, Cmp, Mark, Hash, Len, Iter, Push, Concat, Get, C_Str, C_Int, C_Float, Current, Cast, Pointer,
+               Show, Format, Call, Sort, Resize, Copy, Swap, Stream, Start, Lock, Doc, Help };
+  enum { NCL = sizeof CL / sizeof CL[0] };
+  var TY[] = { Omni, SpA, SpB, SpC, SpD, SpE, SpF, SpG, SpH, Int, Float, String, Array, List, Table, Tree, Tuple, Range, File, Function, Ref, Box, Type };
+  enum { NTY = sizeof TY / sizeof TY[0] };
+  /* which type has which class, asked in a seeded order (the answers are printed in class order) */
+  for (int pass = 0; pass < 2; pass++) {
+    for (int t = 0; t < NTY; t++) {
+      int order[NCL]; char bits[NCL + 1];
+      for (int i = 0; i < NCL; i++) { order[i] = i; }
+      for (int i = NCL - 1; i > 0; i--) { int j = (int)below(i + 1); int q = order[i]; order[i] = order[j]; order[j] = q; }
+      for (int i = 0; i < NCL; i++) { bits[order[i]] = type_implements(TY[t], CL[order[i]]) ? '1' : '0'; }
+      bits[NCL] = 0;
+      OUT("implements %s %s", c_str(TY[t]), bits);
+    }
+  }
+  /* both numeric conversions on types that have both, one of them, or none, in a seeded order */
+  var TC[] = { SpA, SpB, SpC, SpD, SpH, Omni };
+  for (int k = 0; k < 12; k++) {
+    int t = (int)below(6);
+    var o = TC[t] == Omni ? new(Omni, $I(below(1000))) : mk_sp(TC[t], below(1000));
+    int first_int = (int)below(2);
+    for (int step = 0; step < 2; step++) {
+      int want_int = step == 0 ? first_int : !first_int;
+      if (want_int) { if (type_implements(TC[t], C_Int)) { OUT("conv %s c_int=%" PRId64, c_str(TC[t]), c_int(o)); } }
+      else { if (type_implements(TC[t], C_Float)) { OUT("conv %s c_float=%.3f", c_str(TC[t]), c_float(o)); } }
+    }
+    if (type_implements(TC[t], C_Int) && type_implements(TC[t], C_Float)) {
+      var s = new(String);
+      print_to(s, 0, "%i|%.2f|%5i|%e", o, o, o, o);
+      OUT("conv formatted %s", c_str(s));
+      del(s);
+    }
+    del(o);
+  }
+  /* every dispatcher of the all-classes type, in a seeded order */
+  var o = new(Omni, $I(100 + below(900))), o2 = new(Omni, $I(below(50)));
+  for (int k = 0; k < 60; k++) {
+    switch (below(30)) {
+      case 0: OUT("omni len %zu", len(o)); break;
+      case 1: OUT("omni hash %016" PRIx64, hash(o)); break;
+      case 2: OUT("omni cmp %d eq %d", cmp(o, o2), (int)eq(o, o)); break;
+      case 3: OUT("omni c_int %" PRId64, c_int(o)); break;
+      case 4: OUT("omni c_float %.2f", c_float(o)); break;
+      case 5: OUT("omni c_str %s", c_str(o)); break;
+      case 6: push(o, $I(1)); break;
+      case 7: pop(o); break;
+      case 8: push_at(o, $I(1), $I(0)); break;
+      case 9: pop_at(o, $I(0)); break;
+      case 10: concat(o, o2); break;
+      case 11: append(o, o2); break;
+      case 12: OUT("omni get %" PRId64, c_int(get(o, $I(k)))); break;
+      case 13: set(o, $I(1), $I(2)); break;
+      case 14: OUT("omni mem %d", (int)mem(o, $I(k))); break;
+      case 15: rem(o, $I(1)); break;
+      case 16: OUT("omni key/val type %s %s", c_str(key_type(o)), c_str(val_type(o))); break;
+      case 17: ref(o, o2); break;
+      case 18: OUT("omni deref is self %d", (int)(deref(o) == o)); break;
+      case 19: { var s = new(String); print_to(s, 0, "[%$]", o); OUT("omni show %s", c_str(s)); del(s); break; }
+      case 20: OUT("omni call returns self %d", (int)(call_with(o, tuple()) == o)); break;
+      case 21: resize(o, (size_t)(k % 7)); break;
+      case 22: sort_by(o, descending); break;
+      case 23: { int n = 0; foreach (x in o) { n++; } OUT("omni foreach %d items, iter_type %s", n, c_str(iter_type(o))); break; }
+      case 24: { var c = copy(o2); OUT("omni copy eq %d", (int)eq(c, o2)); del(c); break; }
+      case 25: assign(o2, o2); break;
+      case 26: OUT("omni size %zu type %s", size(type_of(o)), c_str(type_of(o))); break;
+      case 27: OUT("omni cast ok %d", (int)(cast(o, Omni) == o)); break;
+      case 28: OUT("omni implements Len %d Lock %d", (int)implements(o, Len), (int)implements(o, Lock)); break;
+      default: OUT("omni lt %d ge %d", (int)lt(o2, o), (int)ge(o2, o)); break;
+    }
+  }
+  { struct Omni* q = o; char b[200]; size_t w = 0; for (int i = 0; i < 16; i++) { w += (size_t)snprintf(b + w, sizeof b - w, "%ld,", q->calls[i]); } OUT("omni calls %s", b); }
+  del(o); del(o2);
+}
+
 static void files(const char* dir_tag) {
   char path[128]; snprintf(path, sizeof path, "c18-%s.tmp", dir_tag);
   var f = new(File, $S(path), $S("w+"));
@@ -224,7 +368,7 @@ int main(int argc, char** argv) {
   int rounds = 3 + (int)below(3);
   for (int i = 0; i < rounds; i++) {
     OUT("--- round %d", i);
-    sequences(); maps(); strings_and_formats(); exceptions(); values_and_types(); files(tag);
+    sequences(); maps(); strings_and_formats(); exceptions(); values_and_types(); user_types(); files(tag);
   }
   OUT("done");
   return 0;
